@@ -16,7 +16,7 @@ from ..core import termio
 from ..core.refsem import (compile_term, free_symbols, Unconstrained, IllTyped, Unsupported,
                            value_to_const, const_to_value)
 from ..core.termgen import interps, sort_values
-from ..core.termio import INT, REAL, BOOL, STRING
+from ..core.termio import INT, REAL, BOOL, STRING, mk_type
 from ..core.sig import term_sig, shrink
 from ..core.sweep import sweep
 
@@ -69,6 +69,11 @@ def make_verdict(env, part, cmemo=None, cache=None):
             return mgr.BV(0, sort[1] + 1)
         return mgr.Int(0) if sort != INT else None
 
+    _hh = mgr.Symbol("hh!uf", mk_type(env, ("Fun", INT, (INT,))))
+    _pp = mgr.Symbol("pp!uf", mk_type(env, ("Fun", BOOL, (BOOL, INT))))
+    uf_queries = [mgr.Equals(mgr.Function(_hh, [mgr.Int(0)]), mgr.Int(0)),
+                  mgr.Function(_pp, [mgr.TRUE(), mgr.Function(_hh, [mgr.Int(1)])])]
+
     def verdict(f):
         sf, ff = compile_term(f, cmemo)
         syms = free_symbols(f)
@@ -86,12 +91,36 @@ def make_verdict(env, part, cmemo=None, cache=None):
                         EagerModel(bad, env).get_value(f)
                     except Exception:
                         pass
+        reused = 0
         for I in interps(syms, dom):
             try:
                 want = ff(I)
             except Unconstrained:
                 continue
             assign = {symn[n]: const(syms[n], I[n]) for n in names}
+            # ---- one model object asked about other formulas first (formulas with an uninterpreted function, which
+            # ---- the model cannot evaluate; the same formula without completion): its answer for f must not change
+            if reused < 2:
+                reused += 1
+                mdl = EagerModel(assign, env)
+                for q in uf_queries:
+                    for kw in ({}, {"model_completion": False}):
+                        try:
+                            mdl.get_value(q, **kw)
+                        except Exception:
+                            pass
+                try:
+                    mdl.satisfies(uf_queries[0])
+                except Exception:
+                    pass
+                try:
+                    r = mdl.get_value(f)
+                except Exception as e:
+                    return ("reuse", "get_value raised %r under %r on a model object that had been asked about %s before"
+                            % (e, I, uf_queries[0]))
+                bad = same(sf, r, want)
+                if bad:
+                    return ("reuse", "on a model object asked about %s before: %s under %r" % (uf_queries[0], bad, I))
             # ---- total assignment
             for how in ("get_value", "getitem", "get_py_value", "nocompletion"):
                 try:
